@@ -744,6 +744,9 @@ pub enum Op {
     MapPre(u8, u8),
     /// Same, but the server entity starts without the replication marker (`Mark` comes later).
     MapPreUnmarked(u8, u8),
+    /// Like `MapPre`, but the client's pre-spawned entity has exactly the same id (index and
+    /// generation) as the server entity, if the client's allocator can still reach it.
+    MapPreSameId(u8, u8),
     /// Like `MapPre`, but the server entity has A and B and the client's pre-spawned entity
     /// already carries a predicted copy of B.
     MapPrePredicted(u8, u8),
@@ -805,6 +808,7 @@ impl Op {
             Op::MapPreEarly(c, s) => format!("prespawn on unauthorized c{c} + map e{}", s + 1),
             Op::MapLate(c, s) => format!("prespawn on c{c} + map existing hidden e{}", s + 1),
             Op::MapPrePredicted(c, s) => format!("prespawn with predicted B on c{c} + map e{}{{A,B}}", s + 1),
+            Op::MapPreSameId(c, s) => format!("prespawn on c{c} with the server entity's own id + map e{}", s + 1),
             Op::DespawnPre(c, s) => format!("c{c} despawns its prespawned entity for e{}", s + 1),
         }
     }
@@ -1181,7 +1185,7 @@ impl Sim {
             Op::ClearOwner(s) => self.alive(s).is_some_and(|e| self.server.world().get::<OwnedBy>(e).is_some()),
             Op::InsBig(s, _) => self.alive(s).is_some_and(|e| !self.has_tag(e, TBIG)),
             Op::MutBig(s, _) => self.alive(s).is_some_and(|e| self.has_tag(e, TBIG)),
-            Op::MapPre(c, s) | Op::MapPreUnmarked(c, s) | Op::MapPrePredicted(c, s) => {
+            Op::MapPre(c, s) | Op::MapPreUnmarked(c, s) | Op::MapPrePredicted(c, s) | Op::MapPreSameId(c, s) => {
                 self.alive(s).is_none()
                     && !self.prespawned.contains_key(&(c as usize, s))
                     && self.is_authorized(c as usize)
@@ -1288,6 +1292,9 @@ impl Sim {
             Op::MapPrePredicted(_, s) => {
                 self.last_edit.insert((s + 1, TA), (v, None));
                 self.last_edit.insert((s + 1, TB), (v, None));
+            }
+            Op::MapPreSameId(_, s) => {
+                self.last_edit.insert((s + 1, TA), (v, None));
             }
             Op::MapPre(_, s) | Op::MapPreUnmarked(_, s) | Op::MapPreEarly(_, s) => {
                 self.last_edit.insert((s + 1, TA), (v, None));
@@ -1466,6 +1473,26 @@ impl Sim {
                 self.prespawned.insert((c as usize, s), pre);
                 self.late_map_tick.insert((c as usize, s), None);
                 let id = self.alive(s).unwrap();
+                let conn = self.clients[c as usize].conn.unwrap();
+                self.server
+                    .world_mut()
+                    .get_mut::<ClientEntityMap>(conn)
+                    .expect("authorized client has an entity map")
+                    .insert(id, pre);
+            }
+            Op::MapPreSameId(c, s) => {
+                let etag = s + 1;
+                let id = self.server.world_mut().spawn((Replicated, A(val(etag, TA, v)))).id();
+                self.ents[s as usize] = Some(id);
+                // the client allocates entities until it reaches the server entity's id
+                let w = self.clients[c as usize].app.world_mut();
+                let mut pre = w.spawn_empty().id();
+                let mut guard = 0;
+                while pre.index() < id.index() && guard < 64 {
+                    pre = w.spawn_empty().id();
+                    guard += 1;
+                }
+                self.prespawned.insert((c as usize, s), pre);
                 let conn = self.clients[c as usize].conn.unwrap();
                 self.server
                     .world_mut()
